@@ -552,6 +552,29 @@ def _laws(rng, tier, ctx):
                 two = call(lambda: c.add(T, 2 * s))
                 if one != two:
                     yield bad('paths', ['(cal add d %d %d)' % (t, s), '(cal add d %d %d)' % (t, 2 * s)], 'add(add(t,%d),%d) = %s but add(t,%d) = %s' % (s, s, one, 2 * s, two))
+            # string bumps with b-periods (the anchored mechanism Calendar.dt_bump): a compound tenor applies its parts left to right, the
+            # b-parts through add(); '+0b' / '-0b' adjust forward / backward first.  Expected values by day-by-day counting (review s3 §C05.4)
+            import pyg_base
+            for tenor, pre, n in (('1m%db', '1m', rng.choice([1, -1, 2, -3, 5])), ('%db1w', None, rng.choice([1, -1, 2, -2])),
+                                  ('+0b', 'f', 0), ('-0b', 'p', 0), ('+0B', 'f', 0)):
+                if pre in ('f', 'p'):
+                    start, bump = nv.adjust(t, pre), tenor
+                    want = None if start is None or not nv.in_range(start) else nv.adjust(start)
+                elif pre is None:
+                    bump = tenor % n
+                    mid = nv.nth(a0, n)
+                    want = None if mid is None else to(pyg_base.dt_bump(fo(mid), '1w'))
+                else:
+                    bump = tenor % n
+                    moved = to(pyg_base.dt_bump(T, pre))
+                    am = nv.adjust(moved) if t0 <= moved <= t1 else None
+                    want = None if am is None or not nv.in_range(am) or not nv.isb(am) else nv.nth(am, n)
+                if want is None:
+                    continue
+                count += 1
+                got = call(lambda: c.dt_bump(T, bump))
+                if got != fo(want):
+                    yield bad('dt_bump-str', ['(cal add d %d %d)' % (t, n)], "Calendar.dt_bump(%s, '%s') = %s, day-by-day counting gives %s" % (T, bump, got, fo(want)))
             # drange '1b'
             u = min(t + rng.choice([0, 1, 3, 7, 15, 45]), t1)
             a1 = nv.adjust(u)
